@@ -15,7 +15,8 @@ SCALARS = ["u8", "u16", "u32", "u64", "i8", "i16", "i32", "i64", "f32", "f64"]
 
 
 class Reg:
-    def __init__(self, name, kind, length, access="RW", offset=None, init=None, len_tok=None, bf=None, off_tok=None):
+    def __init__(self, name, kind, length, access="RW", offset=None, init=None, len_tok=None, bf=None, off_tok=None, doc=None):
+        self.doc = doc
         self.name, self.kind, self.len, self.access = name, kind, length, access
         self.offset, self.init, self.len_tok, self.bf, self.off_tok = offset, init, len_tok, bf, off_tok
         # init = (rust expression, protocol value) ; bf = (ty, lsb_lit, msb_lit)
@@ -37,19 +38,22 @@ class Reg:
     def decl(self):
         off = ", offset = %s" % (self.off_tok or self.offset) if self.offset is not None else ""
         ln = self.len_tok or str(self.len)
-        s = "    #[register(len = %s, access = %s, ty = %s%s)]\n    %s" % (ln, self.access, self.ty_tok(), off, self.name)
+        s = "".join("    /// %s\n" % l for l in (self.doc or "").split("\n") if l)
+        s += "    #[register(len = %s, access = %s, ty = %s%s)]\n    %s" % (ln, self.access, self.ty_tok(), off, self.name)
         if self.init is not None:
             s += " = " + self.init[0]
         return s + ",\n"
 
 
 class Map:
-    def __init__(self, name, base, endian, regs, base_tok=None, vis="pub "):
+    def __init__(self, name, base, endian, regs, base_tok=None, vis="pub ", doc=None, after=""):
+        self.doc, self.after = doc, after
         self.name, self.base, self.endian, self.regs, self.base_tok, self.vis = name, base, endian, regs, base_tok, vis
 
     def decl(self):
-        s = "#[register_map(base = %s, endianness = %s)]\n%senum %s {\n" % (self.base_tok or str(self.base), self.endian, self.vis, self.name)
-        return s + "".join(r.decl() for r in self.regs) + "}\n\n"
+        s = "/// %s\n" % self.doc if self.doc else ""
+        s += "#[register_map(base = %s, endianness = %s)]\n%senum %s {\n" % (self.base_tok or str(self.base), self.endian, self.vis, self.name)
+        return s + "".join(r.decl() for r in self.regs) + "}\n" + self.after + "\n"
 
 
 def word(v, bits):
@@ -167,6 +171,17 @@ def build():
     ]))
     mems.append(("MemFar", ["ScLE", "Far"]))
 
+    # ---- a long writable stretch over several registers (raw accesses of 16..1024 bytes) ----
+    maps.append(Map("Big", 0, "LE", [
+        Reg("B0", "bytes", 300, "RW"),
+        Reg("B1", "bytes", 17, "RW"),
+        Reg("B2", "bytes", 700, "RW"),
+        Reg("B3", "u8", 1, "RO"),
+        Reg("B4", "bytes", 200, "RW"),
+        Reg("B5", "str", 64, "RW", init=('"tail"', "s:" + hexs(b"tail"))),
+    ]))
+    mems.append(("MemBig", ["Big"]))
+
     # ---- bit fields in maps with a non-zero base, private / pub(crate) maps ----
     maps.append(Map("BfBase", 0x200, "BE", [
         Reg("Pad", "u8", 1, "RO", init=("7", word(7, 8))),
@@ -202,23 +217,43 @@ def build():
     return maps, mems
 
 
-def emit(maps, mems):
+def build_inner():
+    """the declaration forms of the real consumer (gentl): restricted visibilities inside a nested
+    module, doc attributes on enum/variants/struct, const-path base from a sibling item, `super::`
+    paths for base / len / offset / init (prepend_super_if_needed)."""
+    in_p = Map("InP", 0, "LE", [
+        Reg("TlPath", "str", 32, "RO", init=('"/opt/gentl"', "s:" + hexs(b"/opt/gentl")), doc="Full path to the producer."),
+        Reg("UpdateList", "u32", 4, "RO", doc="Updates the internal list when a non zero value is\nwritten to this register."),
+        Reg("Selector", "u32", 4, "RW", init=("3", word(3, 32)), doc="Selector."),
+        Reg("Flags", "bf", 2, "RW", bf=("u16", 3, 9), init=("0x55", word(0x55, 16)), doc="A bit field with documentation."),
+    ], vis="pub(super) ", doc="Registers declared like gentl's `GenApiReg`.",
+        after="pub(super) const IN_XML: &str = \"<xml/>\";\npub(super) const IN_XML_LEN: usize = 16;\n"
+              "pub(super) const IN_C_BASE: usize = InP::base() + InP::size();\n")
+    in_c = Map("InC", 42, "BE", [
+        Reg("Xml", "str", 16, "RO", init=("IN_XML", "s:" + hexs(b"<xml/>")), len_tok="IN_XML_LEN", doc="The XML."),
+        Reg("After", "i16", 2, "WO", init=("-7", word(-7, 16))),
+    ], base_tok="IN_C_BASE", vis="pub(crate) ")
+    in_v = Map("InPriv", 0x80, "LE", [
+        Reg("Blob", "bytes", 4, "RW", init=("super::OUTER_BLOB", "b:01020304"), len_tok="super::BLOB_LEN"),
+        Reg("Word", "u64", 8, "RW", offset=0x12, off_tok="super::OVER_C_OFFSET", init=("super::BASE_SC_BE", word(0x100, 64))),
+        Reg("Sign", "bf", 1, "RW", bf=("i8", 7, 7)),
+    ], base_tok="super::OUTER_BASE", vis="")
+    return [in_p, in_c, in_v], [("MemInner", ["InP", "InC", "InPriv"])]
+
+
+def emit_scope(o, maps, mems, maps_tbl, mems_tbl, struct_vis, struct_doc=None):
     by_name = {m.name: m for m in maps}
-    o = []
-    o.append("// @generated by tools/gen_c20_maps.py — do not edit by hand.\n")
-    o.append("// Register-map family for the C20 harness, declared with the real macros of /repo/impl.\n\n")
-    o.append("#![allow(non_snake_case, dead_code, clippy::all)]\n")
-    o.append("use super::*;\nuse cameleon_impl::memory::*;\n\n")
-    o.append("pub const BASE_SC_BE: u64 = 0x100;\npub const BLOB_LEN: usize = 4;\npub const OVER_C_OFFSET: usize = 0x12;\n\n")
     for m in maps:
         o.append(m.decl())
     for (mem, frs) in mems:
-        o.append("#[memory]\npub struct %s {\n" % mem)
+        if struct_doc:
+            o.append("/// %s\n" % struct_doc)
+        o.append("#[memory]\n%sstruct %s {\n" % (struct_vis, mem))
         for i, f in enumerate(frs):
             o.append("    f%d: %s,\n" % (i, f))
         o.append("}\n\n")
     # mirror table
-    o.append("pub static MAPS: &[MapDesc] = &[\n")
+    o.append("pub static %s: &[MapDesc] = &[\n" % maps_tbl)
     for m in maps:
         o.append("    MapDesc { name: \"%s\", base: %d, endian: \"%s\", base_fn: %s::base(), size_fn: %s::size(), regs: &[\n"
                  % (m.name, m.base, m.endian, m.name, m.name))
@@ -232,7 +267,7 @@ def emit(maps, mems):
                         m.name, r.name, m.name, r.name, m.name, r.name, lm))
         o.append("    ] },\n")
     o.append("];\n\n")
-    o.append("pub static MEMS: &[MemDesc] = &[\n")
+    o.append("pub static %s: &[MemDesc] = &[\n" % mems_tbl)
     for (mem, frs) in mems:
         o.append("    MemDesc { name: \"%s\", maps: &[%s], new: || Box::new(%s::new()) },\n"
                  % (mem, ", ".join('"%s"' % f for f in frs), mem))
@@ -240,6 +275,28 @@ def emit(maps, mems):
     for (mem, frs) in mems:
         regs = ", ".join("%s::%s" % (f, r.name) for f in frs for r in by_name[f].regs)
         o.append("dyn_mem!(%s, \"%s\", [%s]);\n" % (mem, mem, regs))
+
+
+def emit(maps, mems):
+    o = []
+    o.append("// @generated by tools/gen_c20_maps.py — do not edit by hand.\n")
+    o.append("// Register-map family for the C20 harness, declared with the real macros of /repo/impl.\n\n")
+    o.append("#![allow(non_snake_case, dead_code, clippy::all)]\n")
+    o.append("use super::*;\nuse cameleon_impl::memory::*;\n\n")
+    o.append("pub const BASE_SC_BE: u64 = 0x100;\npub const BLOB_LEN: usize = 4;\npub const OVER_C_OFFSET: usize = 0x12;\n")
+    o.append("pub const OUTER_BASE: usize = 0x80;\npub const OUTER_BLOB: &[u8] = &[1, 2, 3, 4];\n\n")
+    emit_scope(o, maps, mems, "MAPS", "MEMS", "pub ")
+    imaps, imems = build_inner()
+    o.append("\n/// Declarations in the form the real consumer (gentl) uses them.\npub mod inner {\n")
+    # no glob import of the parent here: `super::X` paths in the declarations must really need the
+    # extra `super` the macro prepends inside its generated module
+    o.append("use super::{reg_op, sweep, DynMem, MapDesc, MemDesc, Op, Out, RegDesc, SweepCb};\n")
+    o.append("use cameleon_impl::memory::*;\n\n")
+    emit_scope(o, imaps, imems, "MAPS_INNER", "MEMS_INNER", "pub(super) ", struct_doc="A memory declared like gentl's.")
+    o.append("}\n\n")
+    # the parent of `inner` reaches the pub(super) map, as gentl's sibling modules do
+    o.append("pub const INNER_VIS_PROBE: (usize, usize, usize) = (inner::InP::base() + inner::InP::size(), "
+             "<inner::InP::Selector as Register>::ADDRESS, <inner::InC::After as Register>::LENGTH);\n")
     return "".join(o)
 
 
@@ -256,8 +313,9 @@ def main():
     if cur != text:  # keep the mtime when nothing changed (no needless cargo rebuild)
         with open(OUT, "w") as f:
             f.write(text)
-    n = sum(len(m.regs) for m in maps)
-    print("wrote %s: %d maps, %d registers, %d memories" % (os.path.normpath(OUT), len(maps), n, len(mems)))
+    imaps, imems = build_inner()
+    n = sum(len(m.regs) for m in maps + imaps)
+    print("wrote %s: %d maps, %d registers, %d memories" % (os.path.normpath(OUT), len(maps + imaps), n, len(mems + imems)))
     return 0
 
 
